@@ -8,6 +8,7 @@ CONSTANTS K = 1
   NH = 3
   Depth = 3
   Acts <- ActsBool
+  LeafProps <- NoProps
   Emit = TRUE
 INIT Init
 NEXT Next
